@@ -338,11 +338,11 @@ class BaseSection(base.Sectionable):
             self._parent.remove(self)
             self._parent = None
         elif self._validate_parent(new_parent):
-            base._check_not_own_ancestor(new_parent, self)
-            if self._parent is not None:
+            # Re-assigning the current parent moves the Section to the end of the list.
+            if self._parent is new_parent:
                 self._parent.remove(self)
-            self._parent = new_parent
-            self._parent.append(self)
+            # append checks first and only then moves the Section to its new parent.
+            new_parent.append(self)
         else:
             raise ValueError(
                 "odml.Section.parent: passed value is not of consistent type!"
@@ -519,9 +519,19 @@ class BaseSection(base.Sectionable):
         """
         if isinstance(obj, BaseSection):
             base._check_not_own_ancestor(self, obj)
+            if obj.name in self._sections:
+                raise KeyError("Object with the same name already exists! " + str(obj))
+            # An object can only be the child of one parent.
+            if obj.parent is not None:
+                obj.parent.remove(obj)
             self._sections.append(obj)
             obj._parent = self
         elif isinstance(obj, BaseProperty):
+            if obj.name in self._props:
+                raise KeyError("Object with the same name already exists! " + str(obj))
+            # An object can only be the child of one parent.
+            if obj.parent is not None:
+                obj.parent.remove(obj)
             self._props.append(obj)
             obj._parent = self
         elif isinstance(obj, Iterable) and not isinstance(obj, str):
@@ -576,6 +586,9 @@ class BaseSection(base.Sectionable):
                                  "Section with name '%s' already exists." % obj.name)
 
             base._check_not_own_ancestor(self, obj)
+            # An object can only be the child of one parent.
+            if obj.parent is not None:
+                obj.parent.remove(obj)
             self._sections.insert(position, obj)
             obj._parent = self
         elif isinstance(obj, BaseProperty):
@@ -583,6 +596,9 @@ class BaseSection(base.Sectionable):
                 raise ValueError("odml.Section.insert: "
                                  "Property with name '%s' already exists." % obj.name)
 
+            # An object can only be the child of one parent.
+            if obj.parent is not None:
+                obj.parent.remove(obj)
             self._props.insert(position, obj)
             obj._parent = self
         else:
